@@ -20,7 +20,7 @@ for id in $ids; do
   P=${id%-*}
   git -C $S/repo checkout -q -- . ; git -C $S/repo clean -fdq
   if ! git -C $S/repo apply /verif/seeded/$id/patch.diff; then echo "$id PATCH-DOES-NOT-APPLY" | tee -a $out.tmp; continue; fi
-  (cd $S/verif && VERIF_IMPL_BUDGET=${VERIF_IMPL_BUDGET:-600} bin/check $P) > $S/log.$id 2>&1; rc=$?
+  (cd $S/verif && VERIF_IMPL_BUDGET=${VERIF_IMPL_BUDGET:-600} timeout 2700 bin/check $P) > $S/log.$id 2>&1; rc=$?
   git -C $S/repo checkout -q -- .
   nv=$(grep -c '^VIOLATION' $S/log.$id)
   nf=$(grep -c 'no-failing-input-found' $S/log.$id)
